@@ -27,6 +27,7 @@ class Tap:
         self.order = []
         self.inexact = 0
         self.slack = 0  # bytes other participating streams may have in flight
+        self.sys = {}
 
     def ticks(self, x):
         v = x * TICK
@@ -66,6 +67,18 @@ class Tap:
                 CUR_STREAM.reset(tok)
 
         def sappend(self_, name, data, start):
+            # system-level account: every byte any stream moves under a limit of a given level and direction, whichever
+            # Throttle object the stream happens to be attached to
+            for key, st in self_.throttles.items():
+                lim = getattr(st, name).limit
+                if lim:
+                    a = tap.sys.setdefault((key, name), {"tpb": TICK / lim, "bytes": 0, "units": {}, "t0": start, "t1": start})
+                    a["bytes"] += len(data)
+                    a["units"][sid(self_)] = max(a["units"].get(sid(self_), 0), len(data))
+                    a["t0"] = min(a["t0"], start)
+                    a["t1"] = max(a["t1"], common._now())
+                    if TICK / lim != a["tpb"]:
+                        a["mixed"] = True
             tok = CUR_STREAM.set(sid(self_))
             try:
                 return sa(self_, name, data, start)
@@ -228,18 +241,45 @@ def e2e_run(seed):
             ukw["write_speed_limit_per_connection"] = on["user_conn"]
         ckw = {"read_speed_limit": on["client"]} if on["client"] else {}
     users = [{"id": "u1", "login": "u1", "pw": "", "max": 0, "perms": [], "home": [], "base": ["A"], "kwargs": ukw}]
-    cfg = gen.std_cfg(ns=3, users=users, block=8, server_kwargs=skw)
+    cfg = gen.std_cfg(ns=4, users=users, block=8, server_kwargs=skw)
     tree = {"d": [["A"]], "f": [{"p": ["A", "f"], "c": [5] * size}]}
     tap = Tap()
     tap.slack = (2 * nclients - 1) * 64
     tap.install()
     t_end = {}
     try:
+        # churn: while the first connection stays logged in, another session of the same user comes and goes (QUIT, or USER again)
+        # before the remaining connections log in; the limits shared by the user's connections must still bound their sum
+        churn = nclients >= 2 and rng.random() < 0.4
+        churn_how = rng.choice(["quit", "reuser", "vanish"])
+        first_in, churned = asyncio.Event(), asyncio.Event()
+
+        async def churner(factory, w):
+            await first_in.wait()
+            c = factory()
+            await c.connect("127.0.0.1", W.CTL_PORT)
+            await c.login("u1", "x")
+            if churn_how == "quit":
+                await c.quit()
+            elif churn_how == "reuser":
+                await c.login("u1", "x")
+                await c.quit()
+            else:
+                c.close()
+            for _ in range(20):
+                await asyncio.sleep(0)
+            churned.set()
+
         def mk(i):
             async def sc(factory, w):
                 c = factory(**ckw)
+                if churn and i > 0:
+                    await churned.wait()
                 await c.connect("127.0.0.1", W.CTL_PORT)
                 await c.login("u1", "x")
+                if churn and i == 0:
+                    first_in.set()
+                    await churned.wait()
                 if direction == "up":
                     async with c.upload_stream("up%d" % i) as st:
                         for k in range(0, size, 8):
@@ -251,7 +291,10 @@ def e2e_run(seed):
                 t_end[i] = common._now()
                 await c.quit()
             return sc
-        out = clientdrv.run_clients(cfg, tree, {i + 1: mk(i) for i in range(nclients)})
+        scen = {i + 1: mk(i) for i in range(nclients)}
+        if churn:
+            scen[nclients + 1] = churner
+        out = clientdrv.run_clients(cfg, tree, scen)
         if out["crash"] or out["exc"] or out["hang"]:
             return None, 0, {"error": out["crash"] or repr(out["exc"]) or out["hang"]}
         dur = max(t_end.values()) if t_end else 0
@@ -261,7 +304,13 @@ def e2e_run(seed):
                 shared = lv in ("server", "user")
                 bounds.append({"level": lv, "tpb": TICK // on[lv], "bytes": size * (nclients if shared else 1),
                                "streams": (nclients if shared else 1), "block": 8, "dur": int(round(dur * TICK))})
-        info = {"limits": on, "direction": direction, "clients": nclients, "size": size, "duration": dur,
+        # the same bound from the limiter's point of view: all bytes (commands and replies included) that any stream moved under
+        # a shared level, however the streams were attached to Throttle objects
+        for (key, name), a in sorted(tap.sys.items()):
+            if key in ("server_global", "user_global") and not a.get("mixed"):
+                bounds.append({"level": key + ":" + name, "tpb": int(a["tpb"]), "bytes": a["bytes"], "streams": 1, "block": sum(a["units"].values()),
+                               "dur": tap.ticks(a["t1"] - a["t0"])})
+        info = {"limits": on, "direction": direction, "clients": nclients, "size": size, "duration": dur, "churn": churn_how if churn else "",
                 "any_limit": any(on.values()), "bounds": bounds}
         return tap.export(), tap.inexact, info
     finally:
